@@ -98,6 +98,10 @@ func c13Scenarios() []goxScenario {
 		// built-in functions that keep process-wide state (random source, compiled-pattern, JSON-query and time-zone caches), one call per record on every worker
 		goxScenario{Name: "functions-with-process-wide-state", Files: map[string]string{"t.csv": big},
 			SQL: "SELECT a, RAND() >= 0, RAND(1, 1 + a) > 0, REGEXP_MATCH(g, 'k[0-9]'), REGEXP_REPLACE(g, '[0-9]', 'x'), JSON_VALUE('a', '{\"a\":1}'), DATETIME_FORMAT(DATETIME('2012-02-03 04:05:06 +09:00'), '%Y'), NOW() IS NOT NULL, TRUNC_TIME(DATETIME('2012-02-03 04:05:06')) IS NOT NULL FROM t", CPU: 3},
+		goxScenario{Name: "print-in-user-function-per-row", Files: map[string]string{"t.csv": big}, SQL: "DECLARE f FUNCTION (@x) AS BEGIN PRINT @x; RETURN @x; END; SELECT f(a) FROM t;", CPU: 3},
+		goxScenario{Name: "variable-assignment-per-row", Files: map[string]string{"t.csv": big}, SQL: "VAR @v := 0; SELECT a, @v := @v + 1 FROM t;", CPU: 3},
+		goxScenario{Name: "cursor-and-table-in-user-function-per-row", Files: map[string]string{"t.csv": big},
+			SQL: "DECLARE f FUNCTION (@x) AS BEGIN DECLARE c CURSOR FOR SELECT @x + 1; OPEN c; VAR @y; FETCH c INTO @y; CLOSE c; DECLARE tt VIEW (n); INSERT INTO tt VALUES (@y); RETURN (SELECT n FROM tt); END; SELECT a, f(a) FROM t;", CPU: 3},
 		goxScenario{Name: "user-function-per-row", Files: map[string]string{"t.csv": big}, SQL: "DECLARE f FUNCTION (@x) AS BEGIN VAR @y := @x * 2; RETURN @y + 1; END; SELECT a, f(a) FROM t;", CPU: 3},
 	)
 	return sc
